@@ -282,7 +282,10 @@ def unmap(prog, rep, fam, mi):
         fp = A(f"f_{p}")
         after = [st_ for st_ in _attr_stores(fn, mi.b, mi.pcs) if st_[0] == p and st_[3] is not mi.fit_stmt
                  and mi.cfg.reachable(mi.cfg.node(mi.fit_stmt), mi.cfg.node(st_[3]))]
-        restored = [st_ for st_ in after if st_[1] == fp and ("not", ("isnone", fp)) in st_[2]]
+        # for EVERY fixed value: the restoring store runs under 'f_p is not None' and under nothing else the fit itself does not run under
+        fit_lits = set(mi.pcs.of(mi.fit_stmt))
+        restored = [st_ for st_ in after if st_[1] == fp and ("not", ("isnone", fp)) in st_[2]
+                    and all(l_ == ("not", ("isnone", fp)) or l_ in fit_lits for l_ in st_[2])]
         spoiled = [st_ for st_ in after if st_ not in restored and any(mi.cfg.reachable(mi.cfg.node(r_[3]), mi.cfg.node(st_[3])) for r_ in restored)]
         rep.check(bool(restored) and not spoiled, "C11.unmap", inst2, fn.where(restored[0][3]) if restored else site,
                   f"self.{p} = self.f_{p} after the fit where {p} is fixed (scipy rewrites the value: {tr[1]})",
